@@ -129,6 +129,16 @@ PROPS = {
                         "BOUNDED only (net_driver): with jitter > 0 every delivery lies in [start + size*8/bitrate + latency, ... + jitter) (sends 100 s apart; the distribution inside the window is not examined); busy times that round to 0 ns at very high bitrates (finding F4)",
                         "claimed as proved: the queue/drop accounting (Buffer invariant, FIFO, Drop and Queue(limit) policies) and the transmit decision of send_message"],
     },
+    "C17": {
+        "bundles": ["cfgmatch"],
+        "fns": {"cfgmatch": ["Props::update_from"]},
+        "assumptions": ["serde_yml shims: Value is an enum of which only Mapping and String carry structure; Mapping is an opaque ordered list of entries ent(); ASSUMED: Mapping::get(&str) finds an entry with that string key iff one exists, keys are unique, iterating a mapping yields its entries (rewrite R20 -> map_pairs), `map.keys().filter_map(Value::as_str)` yields exactly the string keys (R17 -> string_keys), Value::clone yields an equal value",
+                        "strings: vstd's view of str / String as a sequence of chars; byte offsets through an uninterpreted UTF-8 length ulen with ASSUMED additivity and ulen('.') = 1; ASSUMED contracts of the shims the string operations are rewritten to (R17, each tied to the exact expression text): starts_with = char prefix, `k[n..].starts_with('.')` and `&s[n..]` require n to be a char boundary (a prefix of that byte length exists) and then look at / return the rest, String::len = ulen, contains(<any>) uninterpreted",
+                        "Props shim: `set` is recorded in a ghost list (first-write-wins of the real FxHashMap entry API is not modelled); the recursion of update_from is verified with decreases path.len()",
+                        "the specification `addressed` is written for the NESTED form that Cfg::new produces; that compartmentalize_map produces the nested form of a flat configuration is not proved (bounded replay)"],
+        "not_covered": ["BOUNDED only (replay/cfg_driver, never counted as proved): Cfg::new / compartmentalize_map (finding F10 was there), Props::set / keys / get_raw, a second configuration captured into the same Props, no panic for non-ASCII names; flat dotted-key configurations only, values are integers",
+                        "(not covered at all) typed reads `Prop<T>` ('a property keeps the type it was first read or written with'), the order of include_cfg and node creation in des/src/net/runtime/mod.rs and des/src/net/ndl/mod.rs, YAML parsing"],
+    },
     "C12": {
         "bundles": ["moduletree", "lifecycle"],
         "fns": {"moduletree": ["ModuleTree::add"], "lifecycle": ["SimLifecycle@EventLifecycle::at_sim_start", "SimLifecycle@EventLifecycle::at_sim_end"]},
